@@ -267,7 +267,8 @@ LEVEL_TEXT = (
     "every nesting context that reaches it (317 chains, each statement form alone in its block) plus hundreds (thorough: "
     "~28 000) of random profiles with variants, repeats, empty blocks, hostile literals and comment/whitespace noise; for "
     "each, an own tokenizer compares the token sequence of the source with that of as_text(), the regenerated text is "
-    "re-parsed and its tree compared; a coverage monitor fails the run if a production was never exercised."
+    "re-parsed and its tree compared; histories of as_text / as_dict / properties reads interleaved with edits are compared "
+    "with a fresh parse that received only the edits; a coverage monitor fails the run if a production was never exercised."
 )
 LEVEL_NOTE = "Held on the profiles generated; trusted base: the frozen language table (vf/ref/profile_lang.py) and the own tokenizer."
 TECHNIQUE = "grammar-based workload generator + reference tokenizer monitor (token-sequence equality) + re-parse tree equality + production-coverage monitor"
